@@ -14,7 +14,7 @@ from rpylib.distribution.levycopula import ClaytonCopula, IndependentComponentsC
 from .. import zoo
 from ..common import w, wl, close, fr
 
-RULE = ("models: d in {2,3} margins drawn from HEM / Merton (finite activity), VG / CGMY (infinite activity, every CGMY branch) with "
+RULE = ("models: d in {2,3} (and d = 4, where `mass` is the general recursion itself) margins drawn from HEM / Merton (finite activity), VG / CGMY (infinite activity, every CGMY branch) with "
         "zoo.draw_params, or synthetic piecewise-constant TableMeasure margins (exact dyadic tail integrals); copulas: Clayton "
         "(theta in [0.3,4] or exactly 1, eta in (0,1)), independent, dependent. rectangles: every sign pattern per coordinate "
         "(negative side, positive side, straddling 0) forced in turn, end points log-uniform in [1e-3,1] or dyadic, +-inf ends "
@@ -22,8 +22,17 @@ RULE = ("models: d in {2,3} margins drawn from HEM / Merton (finite activity), V
         "origin. index subsets: all non-empty I of the coordinates. non-trivial = finite non-zero mass terms; distinct = distinct "
         "(probe, model spec, I, a, b)")
 NOT_PROVED = [
-    "mass_nonneg is proved for d = 2 (orthant rectangles and one straddling coordinate) from the 2-increasing hypothesis; d = 3 non-negativity is oracle-checked only",
-    "additivity under an axis split is proved for the coded 2-d and 3-d formulas (and massNd = fast formulas); general d is not proved",
+    "mass_nonneg is a theorem for d = 2 (mass2d_nonneg) and d = 3 (mass3d_nonneg_adm: all 26 sign patterns - orthant boxes, one and two "
+    "straddling coordinates) from explicit hypotheses: the copula F is 2-/3-increasing (on boxes without an all-infinite corner), the sub-family "
+    "tail integrals are the I-margins of F (Family3) and the marginal tail integrals are finite and decrease along every non-straddling side. For "
+    "the Clayton copula in d = 2 and d = 3 (theta = 1 over Q, every theta > 0 over R, eta in [0,1]) the copula hypotheses are discharged by C11's "
+    "theorems (clayton_mass2d_nonneg, clayton_mass3d_nonneg, clayton_real_mass3d_nonneg): what remains assumed there is only the monotonicity / "
+    "finiteness of the marginal tail integrals (C09) and exact arithmetic. For the independent / dependent copulas the instantiation is not spelled "
+    "out in Lean (their C11 theorems are about EVal-valued float models); "
+    "non-negativity for d >= 4 is oracle-checked only",
+    "additivity under an axis split (not at 0) is a theorem for the general recursion _mass_nd in EVERY dimension and for every index subset "
+    "(massNd_additive_split, induction on the list of coordinates), and for the coded 2-d / 3-d formulas; 'a coordinate over the whole line can be "
+    "erased' likewise for every d (massNd_whole_line). For d >= 4 the implementation is tied to the model by the d = 4 correspondence stream only",
     "mass = integral of the implied joint density (x_first_derivative) is checked by quadrature only",
     "inverse_tail_integral is a bracketing root search (toms748): only its contract is oracle-checked",
     "that the closed-form marginal integrals are measures (additive, non-negative) is C09, assumed here through the abstract family U",
